@@ -23,6 +23,7 @@ def parsePolicy (s : String) : Option (List (Nat × CbAction)) :=
     | _ => none
 
 def showData (e : Event) : String :=
+  if e.stale then s!"!{(e.data.map (·.length)).getD 0}" else
   match e.data with
   | some d => hexOfBytes d
   | none => if e.gapLen > 0 then s!"~{e.gapLen}" else "~"
@@ -90,10 +91,79 @@ def showDump (c : Htp.Conn.Conn) : String :=
 
 def unsupportedMark (c : Htp.Conn.Conn) : String := if c.unsupported then " UNSUPPORTED" else ""
 
+/-- one item of a `play` list -/
+inductive PlayItem where
+  | req (b : Bytes) | res (b : Bytes) | reqGap (n : Nat) | resGap (n : Nat)
+
+def parsePlayItem (s : String) : Option PlayItem :=
+  if s.startsWith "g>" then (s.drop 2).toString.toNat?.map .reqGap
+  else if s.startsWith "g<" then (s.drop 2).toString.toNat?.map .resGap
+  else if s.startsWith ">" then (bytesOfHex (s.drop 1).toString).map .req
+  else if s.startsWith "<" then (bytesOfHex (s.drop 1).toString).map .res
+  else none
+
+structure PlaySt where
+  conn : Htp.Conn.Conn
+  inOther : Option Bytes := none
+  outOther : Option Bytes := none
+  log : List String := []     -- newest first
+
+def callReq (cfg : Cfg) (b : Bytes) (p : PlaySt) : PlaySt :=
+  let c := { p.conn with events := [] }
+  let (c, rc) := reqData cfg (some b) b.length c
+  let line := s!"req:rc={rc}:consumed={c.inn.read}:ev=[{showEvents c.events}]"
+  let other := if rc == STREAM_DATA_OTHER then some (b.drop c.inn.read.toNat) else none
+  { p with conn := c, inOther := other, log := line :: p.log }
+
+def callRes (cfg : Cfg) (b : Bytes) (p : PlaySt) : PlaySt :=
+  let c := { p.conn with events := [] }
+  let (c, rc) := resData cfg (some b) b.length c
+  let line := s!"res:rc={rc}:consumed={c.out.read}:ev=[{showEvents c.events}]"
+  let other := if rc == STREAM_DATA_OTHER then some (b.drop c.out.read.toNat) else none
+  { p with conn := c, outOther := other, log := line :: p.log }
+
+/-- the hand-over discipline of the repository's own test driver (test/test.c), made total:
+    a request chunk that arrives while request data is still held back is appended to the held data -/
+def playStep (cfg : Cfg) (p : PlaySt) : PlayItem → PlaySt
+  | .req b =>
+    match p.inOther with
+    | some held => { p with inOther := some (held ++ b) }
+    | none => callReq cfg b p
+  | .res b =>
+    let p := match p.outOther with
+      | some held => callRes cfg held { p with outOther := none }
+      | none => p
+    -- if the held response data is still not accepted, the new chunk is appended to what is held
+    let p := match p.outOther with
+      | some held => { p with outOther := some (held ++ b) }
+      | none => callRes cfg b p
+    match p.inOther with
+    | some held => callReq cfg held { p with inOther := none }
+    | none => p
+  | .reqGap n =>
+    let c := { p.conn with events := [] }
+    let (c, rc) := reqData cfg none n c
+    { p with conn := c, log := s!"reqgap:rc={rc}:consumed={c.inn.read}:ev=[{showEvents c.events}]" :: p.log }
+  | .resGap n =>
+    let c := { p.conn with events := [] }
+    let (c, rc) := resData cfg none n c
+    { p with conn := c, log := s!"resgap:rc={rc}:consumed={c.out.read}:ev=[{showEvents c.events}]" :: p.log }
+
+def playAll (cfg : Cfg) (c : Htp.Conn.Conn) (items : List PlayItem) : Htp.Conn.Conn × String :=
+  let p := items.foldl (playStep cfg) { conn := c }
+  -- final flush as the test driver does for the response side (and symmetrically for the request side)
+  let p := match p.outOther with
+    | some held => callRes cfg held { p with outOther := none }
+    | none => p
+  let p := match p.inOther with
+    | some held => callReq cfg held { p with inOther := none }
+    | none => p
+  (p.conn, " ;; ".intercalate p.log.reverse)
+
 def connOp (slot : Option ConnSlot) : List String → Option ConnSlot × String
   | ["new", spec, pol] =>
     match cfgOfSpec spec, parsePolicy pol with
-    | some cfg, some p => (some { cfg := cfg, conn := { policy := p } }, "ok")
+    | some cfg, some p => (some { cfg := cfg, conn := { policy := p, allowCbDestroy := !cfg.txAutoDestroy } }, "ok")
     | _, _ => (slot, "bad-op")
   | op =>
     match slot with
@@ -128,6 +198,12 @@ def connOp (slot : Option ConnSlot) : List String → Option ConnSlot × String
       | ["reqclose"] =>
         let (c, _) := reqClose s.cfg c
         (some { s with conn := c }, s!"rc={c.inn.status} ev=[{showEvents c.events}]{unsupportedMark c}")
+      | ["play", items] =>
+        match (items.splitOn ",").mapM parsePlayItem with
+        | some its =>
+          let (c, out) := playAll s.cfg c its
+          (some { s with conn := c }, out ++ unsupportedMark c)
+        | none => (slot, "bad-op")
       | ["txfreed"] =>
         let (c, n) := txFreed c
         (some { s with conn := c }, toString n)
